@@ -2,6 +2,7 @@
 from __future__ import annotations
 
 import ast
+import re
 
 from ..callgraph import guards_of
 from ..core import AnalysisError, norm, parents, short
@@ -187,18 +188,40 @@ def x4(chk, repo):
             adapter = c
     if adapter is None:
         raise AnalysisError("anchor vanished: explicit_indexing_adapter call")
-    args = list(adapter.args) + [k.value for k in adapter.keywords]
-    level = None
-    for a in args:
-        t = norm(a)
-        if "IndexingSupport." in t:
-            level = t.split("IndexingSupport.")[-1]
+    # xarray.core.indexing.explicit_indexing_adapter(key, shape, indexing_support, raw_indexing_method)
+    names = ["key", "shape", "indexing_support", "raw_indexing_method"]
+    bound = dict(zip(names, adapter.args))
+    bound.update({k.arg: k.value for k in adapter.keywords if k.arg})
+    wflow = Flow(wg)
+
+    def resolved(e, depth=0):
+        e = wflow.expand(e) if e is not None else None
+        if isinstance(e, ast.Name) and depth < 4:
+            r = repo.resolve_name(wg, e.id)
+            if r.kind == "value" and len(r.exprs) == 1:
+                return resolved_in(r.mod, r.exprs[0], depth + 1)
+        return e
+
+    def resolved_in(mod_, e, depth):
+        if isinstance(e, ast.Name) and depth < 4:
+            r = repo.resolve_module_name(mod_, e.id)
+            if r.kind == "value" and len(r.exprs) == 1:
+                return resolved_in(r.mod, r.exprs[0], depth + 1)
+        return e
+    lv = resolved(bound.get("indexing_support"))
+    t = norm(lv) if lv is not None else ""
+    level = t.split("IndexingSupport.")[-1] if "IndexingSupport." in t else None
+    if level is None:
+        raise AnalysisError(f"{xm.relpath}:LazilyIndexedWrapper.__getitem__: the declared indexing support is `{t}`; not decided")
     chk.require(level in SERVED, "C02-X4", f"{xm.relpath}:LazilyIndexedWrapper.__getitem__", f"declared IndexingSupport.{level} is served by the backend (rows regrouped by chunk keep order for monotone selections)",
                 f"declared IndexingSupport.{level}: the backend indexes broadcast index arrays as an outer product - wrong values", key="wrapper:support-level", sample={"level": level})
-    a0 = norm(adapter.args[0]) if adapter.args else None
-    a1 = norm(adapter.args[1]) if len(adapter.args) > 1 else None
-    a3 = norm(adapter.args[3]) if len(adapter.args) > 3 else None
-    chk.require(a0 == wg.positional_params[1] and a1 == "self.shape" and a3 == "self._raw_indexing_method", "C02-X4", f"{xm.relpath}:LazilyIndexedWrapper.__getitem__",
+    a0 = norm(bound["key"]) if "key" in bound else None
+    a1 = norm(bound["shape"]) if "shape" in bound else None
+    a3 = norm(bound["raw_indexing_method"]) if "raw_indexing_method" in bound else None
+    ok_args = a0 == wg.positional_params[1] and a1 == "self.shape" and a3 == "self._raw_indexing_method"
+    if not ok_args and not all(x is not None and re.fullmatch(r"[\w.]+", x) for x in (a0, a1, a3)):
+        raise AnalysisError(f"{xm.relpath}:LazilyIndexedWrapper.__getitem__: adapter receives ({a0}, {a1}, .., {a3}): computed arguments; not decided by the form rule")
+    chk.require(ok_args, "C02-X4", f"{xm.relpath}:LazilyIndexedWrapper.__getitem__",
                 "adapter receives (key, self.shape, level, self._raw_indexing_method)", f"adapter receives ({a0}, {a1}, .., {a3})", key="wrapper:adapter-args")
     # every key goes through the adapter; a direct path is only sound for BasicIndexer keys (ints and slices)
     from ..callgraph import guards_of as _guards
@@ -213,8 +236,12 @@ def x4(chk, repo):
     rim = xm.func("LazilyIndexedWrapper._raw_indexing_method")
     rr = [n for n in rim.own_nodes() if isinstance(n, ast.Return)]
     kp = rim.positional_params[1]
-    chk.require(len(rr) == 1 and norm(rr[0].value) == f"self.array[{kp}]", "C02-X4", f"{xm.relpath}:LazilyIndexedWrapper._raw_indexing_method",
-                "the key tuple is forwarded unchanged to the Array", f"_raw_indexing_method returns {short(rr[0].value, 50) if rr else None}", key="wrapper:forward")
+    rflow = Flow(rim)
+    got = norm(rflow.expand(rr[0].value)) if len(rr) == 1 and rr[0].value is not None else None
+    if got != f"self.array[{kp}]":
+        # written differently: what reaches the Array is decided by evaluation on model keys (C02-X6)
+        raise AnalysisError(f"{xm.relpath}:LazilyIndexedWrapper._raw_indexing_method returns `{got}`: not the recognised form self.array[{kp}]; not decided by the form rule")
+    chk.ok("C02-X4", f"{xm.relpath}:LazilyIndexedWrapper._raw_indexing_method", "the key tuple is forwarded unchanged to the Array")
 
 
 def x4_rows(chk, repo):
